@@ -23,6 +23,7 @@ EXPECTED = [
     ('pathAlwaysAbsolute', 'Bool', 'false'),
     ('envPathStr', 'Bool', 'false'),
     ('savePopped', 'List String', lean_list(['_environment', '_django'])),
+    ('saveOpenMode', 'String', '"w"'),
     ('serializerVersion', 'Int', '1'),
     ('defaultAddParentPaths', 'Bool', 'true'),
     ('defaultAddInitPaths', 'Bool', 'false'),
